@@ -756,6 +756,40 @@ func (c *Conn) RunWTx(tx WTx, cur *oracle.Image) (res WTxResult) {
 	return
 }
 
+// StrayWALWrite issues a write to the log file by a connection that does not hold the WAL write lock (no SQLite
+// connection does that; LiteFS must refuse it and the refusal must have no effect): kind "header" is a 32-byte
+// header with fresh salts at offset 0, "frame" a 24-byte frame header with those salts at the end of the file.
+// It returns the error of the write (nil if it was accepted).
+func (c *Conn) StrayWALWrite(kind string) error {
+	if err := c.OpenWAL(); err != nil {
+		return err
+	}
+	hdr := make([]byte, 32)
+	binary.BigEndian.PutUint32(hdr[0:], 0x377f0682)
+	binary.BigEndian.PutUint32(hdr[4:], 3007000)
+	binary.BigEndian.PutUint32(hdr[8:], uint32(c.PageSize))
+	binary.BigEndian.PutUint32(hdr[12:], 77)
+	binary.BigEndian.PutUint32(hdr[16:], 0x51a17001)
+	binary.BigEndian.PutUint32(hdr[20:], 0x51a17002)
+	c0, c1 := walCk(binary.LittleEndian, 0, 0, hdr[:24])
+	binary.BigEndian.PutUint32(hdr[24:], c0)
+	binary.BigEndian.PutUint32(hdr[28:], c1)
+	if kind == "header" {
+		return c.walWrite("wal write header (no write lock)", 0, hdr)
+	}
+	sz, err := c.wal.Size()
+	if err != nil {
+		return err
+	}
+	if sz < 32 {
+		sz = 32
+	}
+	fh := make([]byte, 24)
+	binary.BigEndian.PutUint32(fh[0:], 2)
+	copy(fh[8:16], hdr[16:24])
+	return c.walWrite("wal write frame header (no write lock)", sz, fh)
+}
+
 // LeaveWAL is the first half of PRAGMA journal_mode=DELETE|TRUNCATE|PERSIST on a WAL database
 // (sqlite3PagerCloseWal): with no other connection attached, everything in the log is checkpointed into the
 // database file, the connection drops its wal-index and log handles and unlinks both files. The caller then
